@@ -3,6 +3,6 @@
 rm -rf /tmp/mut && mkdir -p /tmp/mut && cp -r /repo/src /tmp/mut/src
 sed -i "$3" /tmp/mut/src/$2
 diff <(cat /repo/src/$2) /tmp/mut/src/$2 | head -8
-VERIF_REPO_SRC=/tmp/mut/src /verif/check $1
+VERIF_EVIDENCE_DIR=/tmp/mut/evidence VERIF_BUILD_DIR=/tmp/mut/build VERIF_REPO_SRC=/tmp/mut/src /verif/check $1
 echo rc=$?
 rm -rf /tmp/mut
